@@ -219,3 +219,45 @@ def decision_table(
 
 def fmt_val(v: Dict[str, bool]) -> str:
     return ",".join(f"{k}={'T' if b else 'F'}" for k, b in v.items())
+
+
+def iteration_outcomes(cfg: CFG, loop_stmt, decide, label) -> Set[frozenset]:
+    """Simulates the function and, for every path that runs the body of ``loop_stmt`` once, returns the set of
+    labels (``label(node) -> Optional[str]``) met inside that one iteration, plus "<return>" / "<raise>" when
+    the iteration leaves the function."""
+    head = cfg.node_of(loop_stmt)
+    out: Set[frozenset] = set()
+    for tr in cfg.simulate(decide):
+        p = tr.path
+        if head.id not in p:
+            continue
+        i = p.index(head.id)
+        rest = p[i + 1:]
+        if head.id in rest:
+            body = rest[: rest.index(head.id)]
+            tail = None
+        else:
+            body = rest
+            tail = tr.exit_kind
+        if not body:
+            continue
+        first = cfg.nodes[body[0]]
+        # the iteration was entered iff the first node after the head is inside the loop body
+        inside = any(first.ast is not None and any(x is first.ast for x in ast.walk(s)) for s in loop_stmt.body)
+        if not inside:
+            continue
+        labs = set()
+        for nid in body:
+            n = cfg.nodes[nid]
+            if n.ast is None:
+                continue
+            if not any(any(x is n.ast for x in ast.walk(s)) for s in loop_stmt.body):
+                break  # left the loop body (code after the loop)
+            l = label(n)
+            if l:
+                labs.add(l)
+        else:
+            if tail:
+                labs.add("<return>" if tail == "return_exit" else "<raise>")
+        out.add(frozenset(labs))
+    return out
